@@ -7,6 +7,18 @@ FF = "\x0c"
 
 WILD = {
     "TypeScript": {
+        "generic-functions": """function pick<T extends Record<string, number>>(obj: T) {
+  return obj;
+}
+function on<T extends (e: Event) => void>(cb: T) {
+  cb(null as any);
+}
+function a<T
+const later = (x) => {
+  return x;
+};
+const p = () => { return 1; }; function q(): number { return 2; }
+""",
         "interface-signatures": """interface Shape {
   origin: { x: number; y: number };
   area(scale: number): number;
@@ -57,6 +69,14 @@ export class C {
 """,
     },
     "JavaScript": {
+        "several-functions-per-line": """const a = () => { return 1; }; function b() { return 2; }
+function c() { return 3; } const d = (x) => { return x; };
+const api = { open() { return 1; }, close() { return 2; } }; // both on one line
+<!-- html style comment
+function e() {
+  return 5;
+}
+""",
         "class-members": """class A extends B {
   static #count = 0;
   field = { a: 1 };
@@ -154,6 +174,10 @@ class K:
         "pep695": "def first[T: (int, str)](\n    a: T,\n    b: list[T],\n) -> T:\n    return a\n\nclass Box[T]:\n    def get[U](self, u: U) -> T:\n        return self.v\n",
     },
     "Java": {
+        "one-liners": """class T { int one() { return 1; } int two() { return 2; }
+    void run() { executor.submit(new Callable<Void>() { public Void call() throws Exception { return null; } }); }
+}
+""",
         "annotations-generics": """@Entity(name = "x")
 public abstract class Repo<T extends Comparable<T>> implements Store<T> {
     @Override
@@ -196,6 +220,9 @@ enum Op {
 """,
     },
     "C#": {
+        "one-liners": """class T { int One() { return 1; } int Two() { return 2; }
+    int Three() { return 3; } }
+""",
         "properties-and-expression-bodies": """namespace N {
     [Serializable]
     public class P<T> where T : class, new() {
@@ -226,6 +253,19 @@ enum Op {
 """,
     },
     "C++": {
+        "disabled-regions": """int one() { return 1; } int two() { return 2; }
+int with_disabled(int a) {
+#if 0
+    old_code(a);
+    if (a) { legacy(); }
+#endif
+    a = a + 1;
+    return a;
+}
+void reset() noexcept(noexcept(T{})) {
+    x();
+}
+""",
         "templates-and-init-lists": """template <typename T, int N = (2 + 1)>
 class Vec : public Base<T> {
 public:
@@ -252,6 +292,22 @@ void c_api(void) {
 """,
     },
     "C": {
+        "disabled-regions": """int one(void) { return 1; } int two(void) { return 2; }
+int with_disabled(int a)
+{
+#if 0
+    old_code(a);
+    more_old_code({ a });
+#endif
+    a = a + 1;
+#ifdef X
+    a = x(a);
+#else
+    a = y(a);
+#endif
+    return a;
+}
+""",
         "pointers-and-macros": """#include <stdio.h>
 #define CHECK(x) do { if (!(x)) { return -1; } } while (0)
 typedef int (*cb_t)(int, void *);
